@@ -3,10 +3,13 @@
 A case is ONE scenario — a list of byte segments separated by stream restarts (`reset`) — delivered
 several times, every delivery ending with `end`:
   (a) every segment in one read (the reference delivery, always first),
-  (b) every single split point of every segment (two reads),
+  (b) every single split point of every segment (two reads; scenarios longer than ~1 KB: every
+      split point that is not inside plain text plus a sample of the others, see `deliveries_for`),
   (c) bytewise,
-  (d) 50–200 random partitions (quick: 50–80), half of them biased to cut inside markup, entities,
-      CDATA and UTF-8 sequences; tiny scenarios additionally in ALL 2^(n-1) partitions.
+  (d) 50–200 random partitions (quick: 50–80; at least 20 for very long scenarios and for restart
+      scenarios, which are delivered at every split point of every stream anyway), half of them
+      biased to cut inside markup, entities, CDATA and UTF-8 sequences;
+  tiny scenarios in ALL 2^(n-1) partitions.
 Scenarios: documents from a grammar (nested elements, prefixes and default namespaces incl.
 undeclaration, attributes, the five entities, numeric character references, CDATA, comments, PIs,
 2/3/4-byte UTF-8, CR LF, long text, ISO-8859-1 / UTF-16 encodings, an internal DTD entity), malformed
@@ -353,7 +356,7 @@ def deliveries_for(rng, segs, tier, nrandom=None):
     total = sum(len(s) for s in segs)
     # (b) every single split point (long scenarios: every point that is not plain text, and a stride
     #     through the rest, about 500 deliveries)
-    cap = (600000 if tier == "quick" else 4000000) // max(1, total)     # deliveries this scenario may cost
+    cap = (600000 if tier == "quick" else 1500000) // max(1, total)     # deliveries this scenario may cost
     budget = max(30, min(500 if tier == "quick" else 3000, cap * 6 // 10))
     for si, s in enumerate(segs):
         pts = list(range(1, len(s)))
@@ -417,9 +420,9 @@ def corpus():
 def generate(rng, tier, override=0):
     cases = []
     thorough = tier == "thorough"
-    n_good = override or (60 if not thorough else 600)
-    n_bad = override or (40 if not thorough else 400)
-    n_restart = override or (50 if not thorough else 500)
+    n_good = override or (60 if not thorough else 300)
+    n_bad = override or (40 if not thorough else 200)
+    n_restart = override or (50 if not thorough else 250)
     # fixed: the stream of tests/check_parser.c-like shape and the tiny scenarios in ALL partitions
     for t in (TINY if not override else TINY[:2]):
         if len(t) <= (12 if not thorough else 15):
